@@ -30,7 +30,7 @@ THEOREMS = [
     "Dfols.C12.trsbox_gnew",
     "Dfols.C12.trsbox_gnew_alt",
     "Dfols.C12.trsbox_first_step_cauchy",
-]
+    "Dfols.C12.C12_cg_step_in_ball", "Dfols.C12.C12_cg_step_on_boundary", "Dfols.C12.C12_rotation_keeps_norm", "Dfols.C12.C12_src_step_formulas"]
 TRUSTED_EXTRA = [
     "C12 is PARTIAL: proved = box clause for every input and every rounding (final clipping), gnew = g + H d as an exact-arithmetic "
     "invariant of both loops' updates, decrease of the first (steepest-descent) CG step in exact arithmetic; "
